@@ -16,6 +16,9 @@ func (k msgServer) NonVotingDelegate(ctx context.Context, msg *types.MsgNonVotin
 	}
 
 	// Validate amount
+	if msg.Amount.Amount.IsNil() || !msg.Amount.Amount.IsPositive() {
+		return nil, errorsmod.Wrap(sdkerrors.ErrInvalidCoins, "delegate amount must be positive")
+	}
 	feeDenom, err := k.feeKeeper.FeeDenom(ctx)
 	if err != nil {
 		return nil, err
